@@ -46,12 +46,13 @@ def ensure_warm(environ) -> None:
     if os.path.exists(marker):
         return
     os.makedirs(cdir, exist_ok=True)
-    # drop caches of other trees (disk hygiene); keep at most 3 newest
+    # disk hygiene: drop caches of other trees that were not used for 6 hours (never /repo's own)
     root = os.path.dirname(cdir)
-    others = sorted((d for d in os.listdir(root) if os.path.join(root, d) != cdir),
-                    key=lambda d: os.path.getmtime(os.path.join(root, d)))
-    for d in others[:-3]:
-        shutil.rmtree(os.path.join(root, d), ignore_errors=True)
+    keep = env.tree_hash("/repo") if os.path.isdir("/repo/pandora") else "-"
+    for d in os.listdir(root):
+        full = os.path.join(root, d)
+        if full != cdir and not d.startswith(keep) and time.time() - os.path.getmtime(full) > 6 * 3600:
+            shutil.rmtree(full, ignore_errors=True)
     t0 = time.time()
     p = subprocess.run([_py(), "-m", "pbt.warm"], env=environ, cwd=VERIF_DIR, capture_output=True, text=True)
     if p.returncode != 0:
